@@ -24,6 +24,9 @@ package link_solicit_controller
 //@   loop 1 invariant forall k int trigger matches[k] :: 0 <= k && k < len(matches) ==> matches[k] != nil
 //@   loop 1 invariant forall k int trigger matches[k] :: 0 <= k && k < len(matches) ==> solicitAdmits(matches[k], ls)
 //@   loop 1 invariant forall k int trigger matches[k] :: 0 <= k && k < len(matches) ==> solicitHashEq(matches[k], ls, hashBytes)
+// and conversely (completeness): every solicitation the range has visited that admits the link and has
+// the stream's hash is among the matches; the range visits every registered solicitation
+//@   loop 1 invariant forall s *solicitState trigger rangeseen(s) :: rangeseen(s) && solicitAdmits(s, ls) && solicitHashEq(s, ls, hashBytes) ==> exists k int :: 0 <= k && k < len(matches) && matches[k] == s
 
 // One wrapper per stream: the SolicitMountedStream value is created once per call (outside the
 // emission loop), so every matching solicitation receives the same value and its single
@@ -33,4 +36,18 @@ package link_solicit_controller
 //@   nosweep nil-deref
 //@   requires ls != nil && ls.ml != nil && ls.le != nil && len(ls.sessionID) == 32
 //@   assert at call solicit.NewSolicitMountedStream: outsideLoops && same(arg0, ms)
+// completeness of the scan: when the wrapper is made, every solicitation that was registered while
+// the set was scanned, admits the link and has the stream's hash is among the matches
+//@   assert at call solicit.NewSolicitMountedStream: forall s *solicitState trigger atlock(dom(c.solicitations, s)) :: atlock(s in c.solicitations) && solicitAdmits(s, ls) && solicitHashEq(s, ls, hashBytes) ==> exists k int :: 0 <= k && k < len(matches) && matches[k] == s
 //@   assert at call invoke.AddValue: same(arg0, sms)
+
+// C30, the advertising side: every registered solicitation whose peer and transport constraints admit
+// the link is advertised with its own protocol ID and context (one entry each; nothing is merged or
+// dropped), so an identical solicitation on the other side finds its hash.
+//@ spec fun solicitAdmitsLink(ss ptr, ml iface) bool = (len(ss.dir.SolicitProtocolPeerID()) == 0 || ss.dir.SolicitProtocolPeerID() == ml.GetRemotePeer()) && (ss.dir.SolicitProtocolTransportID() == 0 || ss.dir.SolicitProtocolTransportID() == ml.GetTransportUUID())
+//@ func (*Controller).getSolicitEntries
+//@   noframe
+//@   nosweep nil-deref
+//@   requires held(c.bcast) && ml != nil && forall ss *solicitState trigger dom(c.solicitations, ss) :: ss in c.solicitations ==> ss != nil && ss.dir != nil
+//@   loop 1 invariant forall s *solicitState trigger rangeseen(s) :: rangeseen(s) && solicitAdmitsLink(s, ml) ==> exists j int :: 0 <= j && j < len(entries) && entries[j].ProtocolID == s.dir.SolicitProtocolID() && same(entries[j].Context, s.dir.SolicitProtocolContext())
+//@   ensures forall s *solicitState trigger dom(c.solicitations, s) :: (s in c.solicitations) && solicitAdmitsLink(s, ml) ==> exists j int :: 0 <= j && j < len(ret) && ret[j].ProtocolID == s.dir.SolicitProtocolID() && same(ret[j].Context, s.dir.SolicitProtocolContext())
